@@ -20,6 +20,8 @@ import (
 	"sync/atomic"
 	"time"
 
+	"github.com/cenkalti/backoff/v4"
+
 	"github.com/restic/restic/internal/backend"
 	"github.com/restic/restic/internal/data"
 	"github.com/restic/restic/internal/global"
@@ -68,8 +70,9 @@ func c14Semantic(e *venv, mods []vop, oldIdx, oldPacks map[string]bool) (term, h
 			sort.Slice(out, func(i, j int) bool { return out[i][0] < out[j][0] })
 			return out, nil
 		}
-		// what the snapshot needs
+		// what each saved snapshot needs
 		needs := restic.NewBlobSet()
+		snapNeeds := map[string][]string{}
 		for _, m := range mods {
 			if m.Op == "Save" && m.Type == backend.SnapshotFile {
 				id, err := restic.ParseID(m.Name)
@@ -80,9 +83,17 @@ func c14Semantic(e *venv, mods []vop, oldIdx, oldPacks map[string]bool) (term, h
 				if err != nil {
 					return err
 				}
-				if err := data.FindUsedBlobs(ctx, repo, restic.IDs{*sn.Tree}, needs, c14Counter{}); err != nil {
+				own := restic.NewBlobSet()
+				if err := data.FindUsedBlobs(ctx, repo, restic.IDs{*sn.Tree}, own, c14Counter{}); err != nil {
 					return err
 				}
+				var l []string
+				for h := range own {
+					needs.Insert(h)
+					l = append(l, h.String())
+				}
+				sort.Strings(l)
+				snapNeeds[m.Name] = l
 			}
 		}
 		bn, pn := map[string]int{}, map[string]int{}
@@ -144,12 +155,13 @@ func c14Semantic(e *venv, mods []vop, oldIdx, oldPacks map[string]bool) (term, h
 				tr = append(tr, "SaveIdx "+coqList(ts))
 				hs = append(hs, fmt.Sprintf("index(%d entries)", len(es)))
 			case backend.SnapshotFile:
-				ns := make([]string, len(needList))
-				for i, h := range needList {
+				own := snapNeeds[m.Name]
+				ns := make([]string, len(own))
+				for i, h := range own {
 					ns[i] = fmt.Sprint(num(bn, h))
 				}
 				tr = append(tr, "SaveSnap "+coqList(ns))
-				hs = append(hs, fmt.Sprintf("snapshot(needs %d blobs)", len(needList)))
+				hs = append(hs, fmt.Sprintf("snapshot(needs %d blobs)", len(own)))
 			}
 		}
 		term = fmt.Sprintf("CWriterSem (mkView %s %s) %s", coqList(packs0), coqList(idx0), coqList(tr))
@@ -304,18 +316,12 @@ func engineC14(c *vctx) error {
 			c.Case(kind, fired, len(tr), fmt.Sprintf("CReader %s %s", coqList(tr), coqBool(failed)), h)
 		}
 	}
-	// writers paused before every upload
-	wr := c.n(4, 30)
-	for r := 0; r < wr; r++ {
-		mutate()
-		if r%3 == 2 {
-			// more data: several packs
-			_ = os.WriteFile(filepath.Join(src, "big"), rng.bytes(300000+rng.intn(3000000)), 0o644)
-		}
+	// writers paused before every upload: rv reads the repository wv writes to
+	runWriter := func(name string, wv, rv *venv, fault bool, args ...string) error {
 		fails := 0
 		var fmsg []string
 		oldIdx, oldPacks := map[string]bool{}, map[string]bool{}
-		for p := range e.repoFiles() {
+		for p := range rv.repoFiles() {
 			if strings.HasPrefix(p, "index"+string(filepath.Separator)) {
 				oldIdx[filepath.Base(p)] = true
 			}
@@ -323,40 +329,57 @@ func engineC14(c *vctx) error {
 				oldPacks[filepath.Base(p)] = true
 			}
 		}
-		w.rec.Reset()
-		inHook := false
-		w.rec.OnOp = func(o *vop) error {
+		readers := [][]string{{"--no-lock", "check"}, {"--no-lock", "ls", "latest"}, {"--no-lock", "restore", "latest", "--target", tgt, "--verify"}}
+		if name == "backup" || name == "copy" || name == "backup-indexfault" {
+			// writers under a non-exclusive lock: also a reader that takes its own lock
+			readers = append(readers, []string{"ls", "latest"})
+		}
+		runReaders := func(when string) {
+			for _, cmd := range readers {
+				tick()
+				_ = os.RemoveAll(tgt)
+				if _, se, err := rv.cli(cmd...); err != nil {
+					fails++
+					fmsg = append(fmsg, fmt.Sprintf("%v %s: %v %s", cmd, when, err, strings.TrimSpace(se)))
+				}
+			}
+		}
+		wv.rec.Reset()
+		inHook, faulted := false, false
+		wv.rec.OnOp = func(o *vop) error {
 			if inHook || !o.modifying() || o.Type == backend.LockFile {
 				return nil
 			}
-			inHook = true
-			tick()
-			defer func() { inHook = false }()
-			for _, cmd := range [][]string{{"--no-lock", "check"}, {"ls", "latest"}, {"--no-lock", "restore", "latest", "--target", tgt, "--verify"}} {
-				_ = os.RemoveAll(tgt)
-				if _, se, err := e.cli(cmd...); err != nil {
-					fails++
-					fmsg = append(fmsg, fmt.Sprintf("%v before %s: %v %s", cmd, o.String(), err, strings.TrimSpace(se)))
-				}
+			// only the destination repository is paused (copy also opens its source through this recorder)
+			if fault && !faulted && o.Op == "Save" && o.Type == backend.IndexFile {
+				faulted = true
+				return backoff.Permanent(errVerifCut)
 			}
+			inHook = true
+			defer func() { inHook = false }()
+			runReaders("before " + o.String())
 			return nil
 		}
-		e.rec.OnOp = nil
-		_, _, err := w.cli("backup", src)
-		w.rec.OnOp = nil
-		if err != nil {
-			return fmt.Errorf("C14: paused backup failed: %v", err)
+		rv.rec.OnOp = nil
+		// in a goroutine of its own: the harness runs on the init goroutine, which is locked to its OS
+		// thread, and copy's iter.Pull coroutine must not be created there
+		var stderr string
+		var err error
+		done := make(chan struct{})
+		go func() {
+			defer close(done)
+			_, stderr, err = wv.cli(args...)
+		}()
+		<-done
+		wv.rec.OnOp = nil
+		if err != nil && !fault {
+			// a writer that fails on a repository only restic itself has written to counts as a failure
+			fails++
+			fmsg = append(fmsg, fmt.Sprintf("%v failed: %v %s", args, err, strings.TrimSpace(stderr)))
 		}
-		// and once more after the snapshot is visible
-		for _, cmd := range [][]string{{"--no-lock", "check"}, {"ls", "latest"}, {"--no-lock", "restore", "latest", "--target", tgt, "--verify"}} {
-			_ = os.RemoveAll(tgt)
-			if _, se, err := e.cli(cmd...); err != nil {
-				fails++
-				fmsg = append(fmsg, fmt.Sprintf("%v after the backup: %v %s", cmd, err, strings.TrimSpace(se)))
-			}
-		}
+		runReaders("after " + name)
 		var tr []string
-		for _, o := range w.rec.Mods() {
+		for _, o := range wv.rec.Mods() {
 			switch {
 			case o.Op == "Save" && o.Type == backend.PackFile:
 				tr = append(tr, "WPack")
@@ -368,14 +391,81 @@ func engineC14(c *vctx) error {
 				tr = append(tr, "WOther")
 			}
 		}
-		c.Case("writer-backup", len(tr) >= 3, len(tr), fmt.Sprintf("CWriter %s %d", coqList(tr), fails),
-			fmt.Sprintf("uploads=%v reader-failures=%d %s", tr, fails, strings.Join(fmsg, "; ")))
+		kind := "writer-" + name
+		c.Case(kind, len(tr) >= 2, len(tr), fmt.Sprintf("CWriter %s %d", coqList(tr), fails),
+			fmt.Sprintf("%v fault=%v err=%v uploads=%v reader-failures=%d %s", args, faulted, err, tr, fails, strings.Join(fmsg, "; ")))
 		// the same uploads decoded: per blob, index entry before snapshot, pack before index entry
-		if sterm, sh, serr := c14Semantic(e, w.rec.Mods(), oldIdx, oldPacks); serr != nil {
-			c.Case("writer-decoded", true, len(tr), "CWriterSem (mkView [] []) [SaveSnap [0]]", "decoding the uploads failed: "+serr.Error())
+		if sterm, sh, serr := c14Semantic(rv, wv.rec.Mods(), oldIdx, oldPacks); serr != nil {
+			c.Case(kind+"-decoded", true, len(tr), "CWriterSem (mkView [] []) [SaveSnap [0]]", "decoding the uploads failed: "+serr.Error())
 		} else {
-			c.Case("writer-decoded", len(tr) >= 3, len(tr), sterm, sh)
+			c.Case(kind+"-decoded", len(tr) >= 2, len(tr), sterm, sh)
+		}
+		return nil
+	}
+	// destination repository for copy (same chunker parameters), filled once without pauses
+	os.Setenv("RESTIC_FROM_PASSWORD", vPassword)
+	dst := newVenv(c, "dst")
+	if _, se, err := dst.cli("init", "--from-repo", e.repo, "--copy-chunker-params"); err != nil {
+		return fmt.Errorf("C14: init of the copy destination failed: %v %s", err, se)
+	}
+	dw := c14View(dst)
+	{
+		var se string
+		var err error
+		done := make(chan struct{})
+		go func() {
+			defer close(done)
+			_, se, err = dw.cli("copy", "--from-repo", e.repo)
+		}()
+		<-done
+		if err != nil {
+			return fmt.Errorf("C14: initial copy failed: %v %s", err, se)
 		}
 	}
+	wr := c.n(2, 24)
+	for r := 0; r < wr; r++ {
+		mutate()
+		if r%3 == 2 {
+			// more data: several packs
+			_ = os.WriteFile(filepath.Join(src, "big"), rng.bytes(300000+rng.intn(3000000)), 0o644)
+		}
+		if err := runWriter("backup", w, e, false, "backup", src); err != nil {
+			return err
+		}
+		// copy the new snapshot(s) into the destination, paused
+		if err := runWriter("copy", dw, dst, false, "copy", "--from-repo", e.repo); err != nil {
+			return err
+		}
+		switch r % 3 {
+		case 0:
+			if err := runWriter("rewrite", w, e, false, "rewrite", "--exclude", "a.txt", "latest"); err != nil {
+				return err
+			}
+		case 1:
+			if err := runWriter("tag", w, e, false, "tag", "--add", fmt.Sprintf("t%d", r), "latest"); err != nil {
+				return err
+			}
+		default:
+			if err := runWriter("rewrite-forget", w, e, false, "rewrite", "--exclude", "d", "--forget", "latest"); err != nil {
+				return err
+			}
+			if err := runWriter("repair-snapshots", w, e, false, "repair", "snapshots"); err != nil {
+				return err
+			}
+		}
+	}
+	// every pack upload closes an index file (index.Full forced): several index files per backup, and the
+	// upload of the first one fails for good: no snapshot may be saved whose blobs were only in that index
+	origFull := index.Full
+	index.Full = func(*index.Index) bool { return true }
+	for r := 0; r < c.n(2, 8); r++ {
+		mutate()
+		_ = os.WriteFile(filepath.Join(src, "big"), rng.bytes(2500000+rng.intn(3000000)), 0o644)
+		if err := runWriter("backup-indexfault", w, e, r%2 == 1, "backup", src); err != nil {
+			index.Full = origFull
+			return err
+		}
+	}
+	index.Full = origFull
 	return nil
 }
